@@ -106,6 +106,12 @@ impl WorldA {
         if hostile_conn {
             w[11] = 30;
         }
+        if matches!(self.fam, Fam::Lossy | Fam::Budget) && self.cfg.get("overflow") == 0 && rng.chance(1, 90) {
+            let n = self.nchan(i, d);
+            if n > 0 {
+                return Op::new(K_SUBMITBURST, i as u64, d as u64, rng.below(n as u64), rng.below(61 * 7));
+            }
+        }
         let pick = rng.weighted(&w);
         match pick {
             0 => {
